@@ -170,5 +170,228 @@ theorem mrStep_hom (s : MrSt K (Vector K n)) : mapMr (mrStep ov b s) = mrStep om
   simp only [mapMr, mrStep, toFn_ite, hom_add, hom_sub, hom_smul, hom_A, hom_M, hom_dot]
   rfl
 
+
+/-! ### the theorems for the executable instance -/
+section final
+variable (x0 : Vector K n)
+
+/-- the sequences the driver computes (op `c07_iter`) -/
+def cgVec (k : Nat) : CgSt K (Vector K n) := iter (cgStep ov b) k (cgInit ov b x0)
+def crVec (k : Nat) : CrSt K (Vector K n) := iter (crStep ov b) k (crInit ov b x0)
+def cgneVec (k : Nat) : NeSt K (Vector K n) := iter (cgneStep ov b) k (cgneInit ov b x0)
+def cgnrVec (k : Nat) : NrSt K (Vector K n) := iter (cgnrStep ov b) k (cgnrInit ov b x0)
+
+/-- `dᵀ A d` and `dᵀ d`, computed with the operations of the executable model -/
+def energyV (A : Vector (Vector K n) n) (d : Vector K n) : K := vdot (fun a => a) (vmv A d) d
+def normSqV (d : Vector K n) : K := vdot (fun a => a) d d
+def subV (u v : Vector K n) : Vector K n := Vector.zipWith (· - ·) u v
+
+theorem energyV_eq (d : Vector K n) : energyV A d = PCG.enA (linOf A) (dotForm K n) (toFn d) := by
+  unfold energyV PCG.enA; rw [vdot_eq, toFn_vmv]; rfl
+theorem normSqV_eq (d : Vector K n) : normSqV d = (dotForm K n).en (toFn d) := by
+  unfold normSqV EForm.en; rw [vdot_eq]; rfl
+theorem toFn_subV (u v : Vector K n) : toFn (subV u v) = toFn u - toFn v := toFn_sub u v
+
+def IsSymm (A : Vector (Vector K n) n) : Prop := ∀ i j : Fin n, A[i][j] = A[j][i]
+def IsPD (A : Vector (Vector K n) n) : Prop := ∀ v : Fin n → K, v ≠ 0 → 0 < (dotForm K n).a (linOf A v) v
+
+theorem linOf_symm {A : Vector (Vector K n) n} (h : IsSymm A) (u v : Fin n → K) :
+    (dotForm K n).a (linOf A u) v = (dotForm K n).a u (linOf A v) := by
+  have h1 : linOf (vctrans (fun a => a) A) = linOf A := by
+    unfold linOf; rw [matOf_vctrans]; congr 1
+    funext i j; simp only [Matrix.transpose_apply, matOf]; exact h j i
+  have := linOf_adj A u v
+  rw [h1] at this; exact this
+
+theorem hyp_of {A M : Vector (Vector K n) n} (hA : IsSymm A) (hM : IsSymm M) (hpd : IsPD A) :
+    PCG.Hyp (linOf A) (linOf M) (dotForm K n) where
+  symA := linOf_symm hA
+  symM := linOf_symm hM
+  pd := by
+    intro v h; by_contra hv
+    have := hpd v hv; rw [h] at this; exact lt_irrefl _ this
+  psd := by
+    intro v
+    by_cases hv : v = 0
+    · subst hv; simp
+    · exact le_of_lt (hpd v hv)
+
+theorem cgVec_map (k : Nat) : mapCg (cgVec A M b x0 k) =
+    cgSeq (linOf A) (linOf (vctrans (fun a => a) A)) (linOf M) (dotForm K n) (toFn b) (toFn x0) k :=
+  cg_iter_hom A M b x0 k
+theorem crVec_map (k : Nat) : mapCr (crVec A M b x0 k) =
+    crSeq (linOf A) (linOf (vctrans (fun a => a) A)) (linOf M) (dotForm K n) (toFn b) (toFn x0) k :=
+  cr_iter_hom A M b x0 k
+theorem cgneVec_map (k : Nat) : mapNe (cgneVec A M b x0 k) =
+    cgneSeq (linOf A) (linOf (vctrans (fun a => a) A)) (linOf M) (dotForm K n) (toFn b) (toFn x0) k :=
+  cgne_iter_hom A M b x0 k
+theorem cgnrVec_map (k : Nat) : mapNr (cgnrVec A M b x0 k) =
+    cgnrSeq (linOf A) (linOf (vctrans (fun a => a) A)) (linOf M) (dotForm K n) (toFn b) (toFn x0) k :=
+  cgnr_iter_hom A M b x0 k
+
+/-- **C07, conjugate gradients, for the executable model**: `A`, `M` symmetric, `A` positive definite,
+no breakdown before step `k` ⇒ the `k`-th iterate of the model of `_cg.py` lies in
+`x₀ + K_k(MA, M r₀)` and minimises the energy norm of the error over it -/
+theorem cg_vec_optimal (hA : IsSymm A) (hM : IsSymm M) (hpd : IsPD A) (xs : Vector K n)
+    (hxs : vmv A xs = b) (k : Nat) (hnb : ∀ j, j < k → (cgVec A M b x0 j).rz ≠ 0) :
+    toFn (cgVec A M b x0 k).x - toFn x0 ∈
+      PCG.kry (linOf A) (linOf M) (dotForm K n) (toFn b) (toFn x0) k ∧
+    ∀ y : Vector K n,
+      toFn y - toFn x0 ∈ PCG.kry (linOf A) (linOf M) (dotForm K n) (toFn b) (toFn x0) k →
+      energyV A (subV xs (cgVec A M b x0 k).x) ≤ energyV A (subV xs y) := by
+  have hx : linOf A (toFn xs) = toFn b := by rw [← toFn_vmv, hxs]
+  have hmap := fun j => cgVec_map A M b x0 j
+  have h := cg_model_optimal (linOf A) (linOf (vctrans (fun a => a) A)) (linOf M) (dotForm K n)
+    (toFn b) (toFn x0) (hyp_of hA hM hpd) (toFn xs) hx k
+    (fun j hj => by rw [← hmap j]; exact hnb j hj)
+  rw [← hmap k] at h
+  refine ⟨h.1, fun y hy => ?_⟩
+  rw [energyV_eq, energyV_eq, toFn_subV, toFn_subV]
+  exact h.2 (toFn y) hy
+
+/-- … the energy norm of the error is monotonically non-increasing along the iteration -/
+theorem cg_vec_monotone (hA : IsSymm A) (hM : IsSymm M) (hpd : IsPD A) (xs : Vector K n)
+    (hxs : vmv A xs = b) (k : Nat) (hnb : ∀ j, j < k + 1 → (cgVec A M b x0 j).rz ≠ 0) :
+    energyV A (subV xs (cgVec A M b x0 (k+1)).x) ≤ energyV A (subV xs (cgVec A M b x0 k).x) := by
+  have hx : linOf A (toFn xs) = toFn b := by rw [← toFn_vmv, hxs]
+  have hmap := fun j => cgVec_map A M b x0 j
+  have h := cg_model_monotone (linOf A) (linOf (vctrans (fun a => a) A)) (linOf M) (dotForm K n)
+    (toFn b) (toFn x0) (hyp_of hA hM hpd) (toFn xs) hx k
+    (fun j hj => by rw [← hmap j]; exact hnb j hj)
+  rw [← hmap k, ← hmap (k+1)] at h
+  rw [energyV_eq, energyV_eq, toFn_subV, toFn_subV]
+  exact h
+
+/-- … and an `n × n` system is solved in at most `n` steps (`M` positive definite) -/
+theorem cg_vec_solves (hA : IsSymm A) (hM : IsSymm M) (hpd : IsPD A) (hMpd : IsPD M) :
+    ∃ j, j ≤ n ∧ vmv A (cgVec A M b x0 j).x = b := by
+  have hMdef : ∀ v, (dotForm K n).a v (linOf M v) = 0 → v = 0 := by
+    intro v h; by_contra hv
+    have := hMpd v hv; rw [(dotForm K n).symm, h] at this; exact lt_irrefl _ this
+  obtain ⟨j, hj, h⟩ := cg_model_solves (linOf A) (linOf (vctrans (fun a => a) A)) (linOf M) (dotForm K n)
+    (toFn b) (toFn x0) (hyp_of hA hM hpd) hMdef
+  rw [Module.finrank_fin_fun] at hj
+  refine ⟨j, hj, toFn_injective ?_⟩
+  rw [toFn_vmv]
+  rw [← cgVec_map A M b x0 j] at h
+  exact h
+
+/-- **CGNR, executable model**: `A` injective, `M` symmetric ⇒ the `k`-th iterate minimises the
+2-norm of the residual over `x₀ + K_k(M AᵀA, M Aᵀ r₀)` -/
+theorem cgnr_vec_optimal (hM : IsSymm M) (hinj : ∀ v : Fin n → K, linOf A v = 0 → v = 0)
+    (xs : Vector K n) (hxs : vmv A xs = b) (k : Nat)
+    (hnb : ∀ j, j < k → (cgnrVec A M b x0 j).zr ≠ 0) :
+    let AT := linOf (vctrans (fun a => a) A)
+    toFn (cgnrVec A M b x0 k).x - toFn x0 ∈
+      PCG.kry (AT ∘ₗ linOf A) (linOf M) (dotForm K n) (AT (toFn b)) (toFn x0) k ∧
+    ∀ y : Vector K n,
+      toFn y - toFn x0 ∈ PCG.kry (AT ∘ₗ linOf A) (linOf M) (dotForm K n) (AT (toFn b)) (toFn x0) k →
+      normSqV (subV b (vmv A (cgnrVec A M b x0 k).x)) ≤ normSqV (subV b (vmv A y)) := by
+  intro AT
+  have hx : linOf A (toFn xs) = toFn b := by rw [← toFn_vmv, hxs]
+  have hmap := fun j => cgnrVec_map A M b x0 j
+  have h := cgnr_model_optimal (linOf A) AT (linOf M) (dotForm K n) (toFn b) (toFn x0)
+    (linOf_adj A) (linOf_symm hM) dotForm_def hinj (toFn xs) hx k
+    (fun j hj => by rw [← hmap j]; exact hnb j hj)
+  rw [← hmap k] at h
+  refine ⟨h.1, fun y hy => ?_⟩
+  rw [normSqV_eq, normSqV_eq, toFn_subV, toFn_subV, toFn_vmv, toFn_vmv]
+  exact h.2 (toFn y) hy
+
+/-- **CGNE, executable model**: `Aᵀ` injective, `M` symmetric ⇒ the `k`-th iterate minimises the
+2-norm of the error `x* − x` (`x* = x₀ + Aᵀ y*`) over `x₀ + Aᵀ K_k(M A Aᵀ, M r₀)` -/
+theorem cgne_vec_optimal (hM : IsSymm M)
+    (hinj : ∀ v : Fin n → K, linOf (vctrans (fun a => a) A) v = 0 → v = 0)
+    (ys : Fin n → K)
+    (hys : linOf A (linOf (vctrans (fun a => a) A) ys) = toFn b - linOf A (toFn x0)) (k : Nat)
+    (hnb : ∀ j, j < k → (cgneVec A M b x0 j).zr ≠ 0) :
+    let AT := linOf (vctrans (fun a => a) A)
+    ∀ y, y ∈ PCG.kry (linOf A ∘ₗ AT) (linOf M) (dotForm K n) (toFn b - linOf A (toFn x0)) 0 k →
+      (dotForm K n).en ((toFn x0 + AT ys) - toFn (cgneVec A M b x0 k).x) ≤
+        (dotForm K n).en ((toFn x0 + AT ys) - (toFn x0 + AT y)) := by
+  intro AT
+  have hmap := fun j => cgneVec_map A M b x0 j
+  have h := cgne_model_optimal (linOf A) AT (linOf M) (dotForm K n) (toFn b) (toFn x0)
+    (linOf_adj A) (linOf_symm hM) dotForm_def hinj ys hys k
+    (fun j hj => by rw [← hmap j]; exact hnb j hj)
+  rw [← hmap k] at h
+  exact h
+
+/-- the identity matrix as the driver receives it -/
+def vone : Vector (Vector K n) n := Vector.ofFn (fun i => Vector.ofFn (fun j => if i = j then 1 else 0))
+
+theorem linOf_vone : linOf (vone (K := K) (n := n)) = LinearMap.id := by
+  have : matOf (vone (K := K) (n := n)) = 1 := by
+    funext i j; simp [matOf, vone, Matrix.one_apply, Fin.ext_iff]
+  unfold linOf; rw [this, Matrix.mulVecLin_one]
+
+/-- **CR, executable model, no preconditioner** (`M` = identity matrix): `A` symmetric positive
+definite ⇒ the `k`-th iterate minimises the 2-norm of the residual over `x₀ + K_k(A, r₀)` -/
+theorem cr_vec_optimal (hA : IsSymm A) (hpd : IsPD A) (xs : Vector K n) (hxs : vmv A xs = b) (k : Nat)
+    (hnb : ∀ j, j < k → (crVec A vone b x0 j).rAz ≠ 0) :
+    ∃ E : EForm K (Fin n → K), (∀ u v, E.a u v = (dotForm K n).a (linOf A u) v) ∧
+    toFn (crVec A vone b x0 k).x - toFn x0 ∈ PCG.kry (linOf A) LinearMap.id E (toFn b) (toFn x0) k ∧
+    ∀ y : Vector K n, toFn y - toFn x0 ∈ PCG.kry (linOf A) LinearMap.id E (toFn b) (toFn x0) k →
+      normSqV (subV b (vmv A (crVec A vone b x0 k).x)) ≤ normSqV (subV b (vmv A y)) := by
+  have hx : linOf A (toFn xs) = toFn b := by rw [← toFn_vmv, hxs]
+  have hs := linOf_symm hA
+  have hp : ∀ v, 0 ≤ (dotForm K n).a (linOf A v) v := (hyp_of hA hA hpd).psd
+  have hinj : ∀ v : Fin n → K, linOf A v = 0 → v = 0 := by
+    intro v h; exact (hyp_of hA hA hpd).pd v (by rw [h]; simp)
+  have hmap : ∀ j, mapCr (crVec A vone b x0 j) =
+      crSeq (linOf A) (linOf (vctrans (fun a => a) A)) LinearMap.id (dotForm K n) (toFn b) (toFn x0) j := by
+    intro j; rw [crVec_map, linOf_vone]
+  have h := cr_model_optimal (linOf A) (linOf (vctrans (fun a => a) A)) (dotForm K n) (toFn b) (toFn x0)
+    hs hp dotForm_def hinj (toFn xs) hx k (fun j hj => by rw [← hmap j]; exact hnb j hj)
+  rw [← hmap k] at h
+  refine ⟨KSim.aForm (linOf A) (dotForm K n) hs hp, fun u v => rfl, h.1, fun y hy => ?_⟩
+  rw [normSqV_eq, normSqV_eq, toFn_subV, toFn_subV, toFn_vmv, toFn_vmv]
+  exact h.2 (toFn y) hy
+
+/-- **steepest descent, executable model**: from a consistent state (`r = b − A x`, `z = M r`,
+`rz = ⟨r, z⟩`) one step of the model of `_steepest_descent.py` minimises the energy norm of the error
+on the line `x + t z` -/
+theorem sd_vec_step_optimal (hA : IsSymm A) (hpd : IsPD A) (xs : Vector K n) (hxs : vmv A xs = b)
+    (s : SdSt K (Vector K n)) (hr : s.r = subV b (vmv A s.x)) (hrz : s.rz = vdot (fun a => a) s.r s.z)
+    (hden : vdot (fun a => a) s.z (vmv A s.z) ≠ 0) (t : K) :
+    energyV A (subV xs (sdStep ov b s).x) ≤
+      energyV A (subV xs (Vector.zipWith (· + ·) s.x (s.z.map (t * ·)))) := by
+  have hx : linOf A (toFn xs) = toFn b := by rw [← toFn_vmv, hxs]
+  have h := sd_step_optimal (linOf A) (linOf (vctrans (fun a => a) A)) (linOf M) (dotForm K n) (toFn b)
+    (linOf_symm hA) (hyp_of hA hA hpd).psd (toFn xs) hx (mapSd s)
+    (by simp only [mapSd]; rw [hr, toFn_subV, toFn_vmv])
+    (by simp only [mapSd]; rw [hrz, vdot_eq]; rfl)
+    (by simp only [mapSd]; rw [vdot_eq, toFn_vmv] at hden; exact hden) t
+  rw [energyV_eq, energyV_eq, toFn_subV, toFn_subV, toFn_add, toFn_smul]
+  have e1 : toFn (sdStep ov b s).x = (sdStep om (toFn b) (mapSd s)).x := by
+    rw [← sdStep_hom]; rfl
+  rw [e1]
+  exact h
+
+/-- **minimal residual, executable model**: from a state with `z = M (b − A x)` one step of the model of
+`_minimal_residual.py` minimises the 2-norm of the preconditioned residual on the line `x + t z` -/
+theorem mr_vec_step_optimal (s : MrSt K (Vector K n)) (hz : s.z = vmv M (subV b (vmv A s.x)))
+    (hden : vdot (fun a => a) (vmv M (vmv A s.z)) (vmv M (vmv A s.z)) ≠ 0) (t : K) :
+    normSqV (vmv M (subV b (vmv A (mrStep ov b s).x))) ≤
+      normSqV (vmv M (subV b (vmv A (Vector.zipWith (· + ·) s.x (s.z.map (t * ·)))))) := by
+  have h := mr_step_optimal (linOf A) (linOf (vctrans (fun a => a) A)) (linOf M) (dotForm K n) (toFn b)
+    (mapMr s)
+    (by simp only [mapMr]; rw [hz, toFn_vmv, toFn_subV, toFn_vmv])
+    (by simp only [mapMr]; rw [vdot_eq, toFn_vmv, toFn_vmv] at hden; exact hden) t
+  rw [normSqV_eq, normSqV_eq, toFn_vmv, toFn_vmv, toFn_subV, toFn_subV, toFn_vmv, toFn_vmv, toFn_add, toFn_smul]
+  have e1 : toFn (mrStep ov b s).x = (mrStep om (toFn b) (mapMr s)).x := by
+    rw [← mrStep_hom]; rfl
+  rw [e1]
+  exact h
+
+end final
 end ordered
+
+#print axioms cg_vec_optimal
+#print axioms cg_vec_solves
+#print axioms cgnr_vec_optimal
+#print axioms cgne_vec_optimal
+#print axioms cr_vec_optimal
+#print axioms sd_vec_step_optimal
+#print axioms mr_vec_step_optimal
 end PyamgV.C07
